@@ -1,9 +1,227 @@
 import WM.Proto
+import WM.Model.Parser
+import WM.Spec.Parser
 namespace WM.Drv.C16
-open WM.Proto
+open WM.Proto WM.Parser
 
-/-- Protocol handler of family `c16` (requests arrive without the family token). -/
+/-! Protocol plumbing for family `c16` (nothing here is part of a theorem). -/
+
+def gk? : SExp → Option GK
+  | .atom "and" => some .and
+  | .atom "or" => some .or
+  | .atom "dismax" => some .dismax
+  | .atom "ordered" => some .ordered
+  | .atom "seq" => some .seq
+  | .atom "andnot" => some .andnot
+  | .atom "andmaybe" => some .andmaybe
+  | .atom "require" => some .require
+  | .atom "not" => some .not
+  | _ => none
+
+def showGK : GK → String
+  | .and => "and" | .or => "or" | .dismax => "dismax" | .ordered => "ordered" | .seq => "seq"
+  | .andnot => "andnot" | .andmaybe => "andmaybe" | .require => "require" | .not => "not"
+
+def opT? : SExp → Option OpT
+  | .atom "pre" => some .pre
+  | .atom "post" => some .post
+  | .atom "inf" => some .inf
+  | _ => none
+
+def showOpT : OpT → String
+  | .pre => "pre" | .post => "post" | .inf => "inf"
+
+def str? (e : SExp) : Option Str := e.natList?
+def optStr? (e : SExp) : Option (Option Str) := SExp.opt? str? e
+
+def showStr (s : Str) : String := showNatList s
+def showOptStr : Option Str → String := showOpt showStr
+
+def tk? : SExp → Option TK
+  | .atom "w" => some .word
+  | .atom "wild" => some .wild
+  | .atom "pre" => some .prefix
+  | .atom "re" => some .regex
+  | .list [.atom "ph", s] => s.nat?.map .phrase
+  | .list [.atom "fz", a, b] => do some (.fuzzy (← a.nat?) (← b.nat?))
+  | _ => none
+
+def showTK : TK → String
+  | .word => "w" | .wild => "wild" | .prefix => "pre" | .regex => "re"
+  | .phrase s => s!"(ph {s})" | .fuzzy a b => s!"(fz {a} {b})"
+
+def rel? : SExp → Option Rel
+  | .atom "lt" => some .lt
+  | .atom "gt" => some .gt
+  | .atom "le" => some .le
+  | .atom "el" => some .el
+  | .atom "ge" => some .ge
+  | .atom "eg" => some .eg
+  | _ => none
+
+def showRel : Rel → String
+  | .lt => "lt" | .gt => "gt" | .le => "le" | .el => "el" | .ge => "ge" | .eg => "eg"
+
+partial def node? : SExp → Option Node
+  | .atom "ws" => some .ws
+  | .atom "opn" => some .opn
+  | .atom "cls" => some .cls
+  | .atom "every" => some .every
+  | .atom "plus" => some .plus
+  | .atom "minus" => some .minus
+  | .list [.atom "t", k, t, f, b] => do
+    some (.text (← tk? k) (← str? t) (← optStr? f) (← b.rat?))
+  | .list [.atom "r", s, e, sx, ex, f] => do
+    some (.range (← optStr? s) (← optStr? e) (← sx.bool?) (← ex.bool?) (← optStr? f))
+  | .list [.atom "fn", n, o] => do some (.fname (← str? n) (← str? o))
+  | .list [.atom "op", t, g, la, txt] => do
+    some (.op (← opT? t) (← gk? g) (← la.bool?) (← str? txt))
+  | .list [.atom "bst", o, b] => do some (.bst (← str? o) (← b.rat?))
+  | .list [.atom "fuzz", a, b, o] => do some (.fuzz (← a.nat?) (← b.nat?) (← str? o))
+  | .list [.atom "gtlt", r] => do some (.gtlt (← rel? r))
+  | .list [.atom "g", k, .list ns, b] => do
+    some (.group (← gk? k) (← ns.mapM node?) (← b.rat?))
+  | _ => none
+
+partial def showNode : Node → String
+  | .ws => "ws" | .opn => "opn" | .cls => "cls" | .every => "every" | .plus => "plus" | .minus => "minus"
+  | .text k t f b => s!"(t {showTK k} {showStr t} {showOptStr f} {showRat b})"
+  | .range s e sx ex f => s!"(r {showOptStr s} {showOptStr e} {showBool sx} {showBool ex} {showOptStr f})"
+  | .fname n o => s!"(fn {showStr n} {showStr o})"
+  | .op t g la txt => s!"(op {showOpT t} {showGK g} {showBool la} {showStr txt})"
+  | .bst o b => s!"(bst {showStr o} {showRat b})"
+  | .fuzz a b o => s!"(fuzz {a} {b} {showStr o})"
+  | .gtlt r => s!"(gtlt {showRel r})"
+  | .group k ns b => s!"(g {showGK k} {showList showNode ns} {showRat b})"
+
+def filterId? : SExp → Option FilterId
+  | .atom "do_groups" => some .groups
+  | .atom "clean_boost" => some .cleanBoost
+  | .atom "do_fuzzyterms" => some .fuzzy
+  | .atom "do_wildcards" => some .wildcards
+  | .atom "do_aliases" => some .aliases
+  | .atom "do_gtlt" => some .gtlt
+  | .atom "do_fieldnames" => some .fieldnames
+  | .atom "do_copyfield" => some .copyfield
+  | .atom "do_multifield" => some .multifield
+  | .atom "remove_whitespace" => some .rmws
+  | .atom "do_boost" => some .boost
+  | .atom "do_plusminus" => some .plusminus
+  | .atom "do_operators" => some .operators
+  | _ => none
+
+def pair? {α β} (f : SExp → Option α) (g : SExp → Option β) : SExp → Option (α × β)
+  | .list [a, b] => do some (← f a, ← g b)
+  | _ => none
+
+def opCfg? : SExp → Option OpCfg
+  | .list [t, g, la] => do some ⟨← opT? t, ← gk? g, ← la.bool?⟩
+  | _ => none
+
+def cfg? : SExp → Option Cfg
+  | .list [.atom "cfg", grp, df, sch, ru, ops, mf, mfg, cp, cpg, al, fl] => do
+    some { group := ← gk? grp, defField := ← optStr? df,
+           schema := ← SExp.opt? (SExp.listOf? str?) sch,
+           removeUnknown := ← ru.bool?,
+           ops := ← SExp.listOf? opCfg? ops,
+           mfFields := ← SExp.listOf? (pair? str? SExp.rat?) mf,
+           mfGroup := ← gk? mfg,
+           copyMap := ← SExp.listOf? (pair? str? str?) cp,
+           copyGroup := ← SExp.opt? gk? cpg,
+           aliases := ← SExp.listOf? (pair? str? str?) al,
+           filters := ← SExp.listOf? (pair? filterId? SExp.int?) fl }
+  | _ => none
+
+def showErr : Err → String
+  | .indexError => "IndexError" | .assertion => "AssertionError"
+  | .notImplemented => "NotImplementedError" | .unbound => "UnboundLocalError"
+  | .qpe => "QueryParserError" | .other => "Other"
+
+def err? : SExp → Option Err
+  | .atom "IndexError" => some .indexError
+  | .atom "AssertionError" => some .assertion
+  | .atom "NotImplementedError" => some .notImplemented
+  | .atom "UnboundLocalError" => some .unbound
+  | .atom "QueryParserError" => some .qpe
+  | .atom _ => some .other
+  | _ => none
+
+partial def showQ : Q → String
+  | .leaf id _ => s!"(leaf {id})"
+  | .null => "null"
+  | .compound k subs b => s!"(c {showGK k} {showList showQ subs} {showRat b})"
+  | .not q => s!"(not {showQ q})"
+  | .binary k a b => s!"(bin {showGK k} {showQ a} {showQ b})"
+
+def leafRes? : SExp → Option LeafRes
+  | .atom "none" => some .none
+  | .list [.atom "q", t] => do some (.q 0 (← t.bool?))
+  | .list [.atom "err", e] => do some (.err (← err? e))
+  | _ => none
+
+/-- the oracle of the `query` request: leaf number `i` is sent as a word node with text `[i]` -/
+def tableOracle (tbl : List LeafRes) : Node → LeafRes
+  | .text _ [i] _ _ =>
+    match tbl[i]? with
+    | some (.q _ t) => .q i t
+    | some r => r
+    | none => .err .other
+  | _ => .err .other
+
+partial def expr? : SExp → Option Expr
+  | .list [.atom "atom", n] => do some (.atom (← node? n))
+  | .list (.atom "paren" :: es) => do some (.paren (← es.mapM expr?))
+  | .list [.atom "not", e] => do some (.not (← expr? e))
+  | .list (.atom "op" :: g :: es) => do some (.op (← gk? g) (← es.mapM expr?))
+  | _ => none
+
+/-- valuation from the list of (field, text) pairs of the leaves that match the document -/
+def tableVal (tbl : List (Option Str × Str)) : Node → Bool
+  | .text _ t f _ => tbl.contains (f, t)
+  | _ => false
+
+def fieldText? : SExp → Option (Option Str × Str)
+  | .list [f, t] => do some (← optStr? f, ← str? t)
+  | _ => none
+
+def showExcept {α} (f : α → String) : Except Err α → String
+  | .ok a => "ok " ++ f a
+  | .error e => "err " ++ showErr e
+
 def handle : List SExp → String
+  | [.atom "filterize", c, .list ns] =>
+    match cfg? c, ns.mapM node? with
+    | some c, some ns => showExcept showNode (filterize c ns)
+    | _, _ => "bad-op"
+  | [.atom "filter", c, f, n] =>
+    match cfg? c, filterId? f, node? n with
+    | some c, some f, some n => showExcept showNode (applyFilter c f n)
+    | _, _, _ => "bad-op"
+  | [.atom "priorized", c] =>
+    match cfg? c with
+    | some c => toString (priorized c.filters).length
+    | none => "bad-op"
+  | [.atom "clean", n] =>
+    match node? n with
+    | some n => showBool (clean n)
+    | none => "bad-op"
+  | [.atom "spec", g, .list es] =>
+    match gk? g, es.mapM expr? with
+    | some g, some es =>
+      s!"{showBool (es.all Expr.wf)} {showList showNode (toksSeq es)} {showNode (outSeq g es)}"
+    | _, _ => "bad-op"
+  | [.atom "eval", g, .list es, .list docs] =>
+    -- one verdict per document; a document is the list of its true leaves
+    match gk? g, es.mapM expr?, docs.mapM (SExp.listOf? fieldText?) with
+    | some g, some es, some docs => showList (fun d => showBool (evalSeq g (tableVal d) es)) docs
+    | _, _, _ => "bad-op"
+  | [.atom "query", n, .list tbl] =>
+    match node? n, tbl.mapM leafRes? with
+    | some n, some tbl =>
+      match query (tableOracle tbl) n with
+      | .ok r => "ok " ++ showOpt showQ r ++ " " ++ showQ (finish r)
+      | .error e => "err " ++ showErr e
+    | _, _ => "bad-op"
   | _ => "bad-op"
 
 end WM.Drv.C16
